@@ -47,10 +47,11 @@ From RZ.proofs Require Import ExprCorrect.
    states it); here its instance for the fragment, restated so that C03 has its own obligation *)
 Theorem C03_casts_correct_repaired :
   forall (cfg : config) (rw : regwidth) (IM : string -> bool) (E : cenv) (csub : csubs) xi V e st,
-  cfg_fx cfg = all_fixes -> cfg_params cfg = [] -> lst_ok IM V st -> pfrag rw IM V e ->
+  cfg_fx cfg = all_fixes -> cfg_params cfg = [] -> macs_std (cfg_macros cfg) -> subs_ext (cfg_subs cfg) -> csub_ext csub ->
+  lst_ok IM V st -> pfrag rw IM V e ->
   exists pv st', lower_expr cfg e st = OK (IPure pv, st') /\ st_ext st st' /\ lst_ok IM V st' /\
     forall R rem, regs_le (st_regs st') R -> norem rem ->
-    forall cs ms, rel IM E V cs ms -> imms_done IM (st_imms st') ms ->
+    forall cs ms, rel IM E V cs ms -> imms_done IM E (st_imms st') cs ms ->
       exists ilv, eval rw ms [] (fin_pure R rem (pv_term pv)) = Some ilv /\ shape_pv pv ilv /\
         forall fuel cs' cv, ceval E csub xi fuel cs e = Some (cs', cv) -> cs' = cs /\ agrees pv cv ilv.
 Proof. exact expr_correct_unconditional. Qed.
